@@ -4,7 +4,7 @@
    - the repaired check-then-append race of Peer.addConnection: a run of the pre-repair step
      function (recheck = false) reaching a quiescent state with a closed connection listed. *)
 From Coq Require Import ZArith List Bool Lia.
-From Verif Require Import Base.Wrap Gen.GenConsts Model.PeerBook Spec.PeerBookSpec Proofs.PeerBookL Proofs.PeerBookP.
+From Verif Require Import Base.Wrap Gen.GenConsts Model.PeerBook Spec.PeerBookSpec Proofs.PeerBookL Proofs.PeerBookP Proofs.PeerBookS.
 Import ListNotations.
 Local Open Scope Z_scope.
 
@@ -93,3 +93,42 @@ Qed.
 (* the same schedule on the repaired code leaves the peer's lists empty *)
 Lemma w3_repaired : p_in (s_peer (final true w3) 3) = [] /\ p_out (s_peer (final true w3) 3) = [].
 Proof. vm_compute. split; reflexivity. Qed.
+
+(* ---- non-vacuity: concrete safe runs ---- *)
+(* Non-vacuity: a safe run reaching a quiescent state with an outbound connection whose peer
+   announced host:port 11 while 21 was dialled (listed under both), one peer-list reference,
+   two status callbacks ... *)
+Definition ex1 : list label :=
+  [LNew c_outbound 11 21] ++ steps 2 8 ++ [LListAdd 0 21] ++ steps 5 1.
+Lemma example_listed :
+  exists s, run_safe init ex1 = Some s /\ quiescent s /\
+    s_root s 11 = Some 3 /\ p_out (s_peer s 3) = [1] /\
+    s_root s 21 = Some 4 /\ p_out (s_peer s 4) = [1] /\ p_sc (s_peer s 4) = 1 /\
+    s_inch s 1 = true /\ s_log s = [11; 21].
+Proof.
+  exists (final true ex1).
+  assert (Hs : run_safe init ex1 = Some (final true ex1)).
+  { assert (H : run_safe init ex1 <> None) by (intros Hn; vm_compute in Hn; discriminate Hn).
+    destruct (run_safe init ex1) as [s|] eqn:E; [|now contradiction H].
+    pose proof (run_safe_is_run _ _ _ E) as Hr. unfold final. now rewrite Hr. }
+  split; [exact Hs|]. split.
+  - apply quiescent_check; [apply (inv0_reach ex1), run_safe_is_run, Hs|vm_compute; reflexivity].
+  - vm_compute. repeat split; reflexivity.
+Qed.
+
+(* ... and one where the connection then closes: both peers are collected, four callbacks. *)
+Definition ex2 : list label :=
+  [LNew c_outbound 11 21] ++ steps 2 8 ++ [LChange 1 c_connectionClosed] ++ steps 5 12.
+Lemma example_collected :
+  exists s, run_safe init ex2 = Some s /\ quiescent s /\
+    s_root s 11 = None /\ s_root s 21 = None /\ s_inch s 1 = false /\ s_log s = [11; 21; 11; 21].
+Proof.
+  exists (final true ex2).
+  assert (Hs : run_safe init ex2 = Some (final true ex2)).
+  { assert (H : run_safe init ex2 <> None) by (intros Hn; vm_compute in Hn; discriminate Hn).
+    destruct (run_safe init ex2) as [s|] eqn:E; [|now contradiction H].
+    pose proof (run_safe_is_run _ _ _ E) as Hr. unfold final. now rewrite Hr. }
+  split; [exact Hs|]. split.
+  - apply quiescent_check; [apply (inv0_reach ex2), run_safe_is_run, Hs|vm_compute; reflexivity].
+  - vm_compute. repeat split; reflexivity.
+Qed.
